@@ -174,7 +174,14 @@ pub proof fn C08_share_canonical(b: Seq<u8>)
     lemma_pow256_4();
     assert(le32(p.0 as u32) == hdr);
     assert(b =~= hdr + r1);
-    assert(b =~= adss::layout_share(p.0 as u32, p.1, p.2, p.3, p.4));
+    // step by step (one big extensionality query was unstable): each remainder is a frame plus the next one
+    assert(r1 == frame(p.1) + r2);
+    assert(r2 == frame(p.2) + r3);
+    assert(r3 == frame(p.3) + r4);
+    assert(r4 == p.4);
+    assert(r2 =~= frame(p.2) + frame(p.3) + p.4);
+    assert(r1 =~= frame(p.1) + frame(p.2) + frame(p.3) + p.4);
+    assert(hdr + r1 =~= le32(p.0 as u32) + frame(p.1) + frame(p.2) + frame(p.3) + p.4);
 }
 
 // ---------------------------------------------------------------- C08: sharks shares
@@ -825,7 +832,8 @@ pub proof fn canary_must_fail_sta()
     ensures false
 {
     broadcast use {group_iter_seq, group_strobe, group_field, group_s5, ax_s5_prf_prefix, ax_s4, ax_fv_inj, ax_finv,
-        adss::ax_det_strobe_rng, sta_rs::ax_fill_strobe_rng, adss::lemma_s_parts_ext};
+        adss::ax_det_strobe_rng, sta_rs::ax_fill_strobe_rng, adss::lemma_s_parts_ext,
+        ax_vec_u8_ext, ax_vec_u8_key_model, vstd::laws_eq::group_laws_eq};
 }
 
 } // mod lemmas
